@@ -1,20 +1,22 @@
 (** C02 — Caching blockstore layers are observationally transparent.
-    ONLY the property theorems, each closed by [exact] of a lemma proved in
-    [proofs/P_C02_*.v], with [Print Assumptions] beneath it.
+    ONLY the property theorems, each closed by [exact]/[apply] of lemmas proved
+    in [proofs/P_C02_*.v], with [Print Assumptions] beneath it.
     Models: [model/M_C02.v] (transcribed from blockstore/{caching,twoqueue_cache,
     bloom_cache,blockstore}.go and tied to the code by ./check C02). *)
 From Coq Require Import List ZArith Bool NArith Arith.
-From V Require Import lib.Verdict model.M_C02 proofs.P_C02_seq.
+From V Require Import lib.Verdict model.M_C02 proofs.P_C02_seq proofs.P_C02_conc proofs.P_C02_bloom.
 Import ListNotations.
 
-(** Sequential transparency.  For EVERY configuration (2Q layer and/or Bloom
-    layer), every Bloom position function [pos], every size function, every
-    initial key set, every outcome of the initial build's enumeration
-    (delivered prefix [n], completeness bit), every history [h] of operations
-    each preceded by an arbitrary eviction choice (any cache entries may vanish
-    at any step), with read-only faults and Rebuilds whose enumeration is cut
-    at any position: the answers of the cached store are those of the uncached
-    map, and the final stores hold the same keys. *)
+(** * Sequential part *)
+
+(** For EVERY configuration (2Q layer and/or Bloom layer), every Bloom position
+    function [pos], every size function, every initial key set, every outcome
+    of the initial build's enumeration (delivered prefix [n], completeness
+    bit), every history [h] of operations each preceded by an arbitrary eviction
+    choice (any cache entries may vanish at any step), with read-only faults
+    and Rebuilds whose enumeration is cut at any position: the answers of the
+    cached store are those of the uncached map, and the final stores hold the
+    same keys. *)
 Theorem C02_seq_transparent :
   forall (cf : cfg) (pos : key -> N) (sz : key -> Z) keys n complete (h : list (list key * op)),
     let s0 := init cf pos keys n complete in
@@ -22,3 +24,163 @@ Theorem C02_seq_transparent :
     seteq (s_store (snd (run cf pos sz s0 h))) (snd (spec_run sz (sort_dedup keys) (map snd h))).
 Proof. exact seq_transparent. Qed.
 Print Assumptions C02_seq_transparent.
+
+(** A Rebuild whose enumeration reported an error or was cut before the last key
+    fails, leaves the filter inactive, and no operation other than a Rebuild
+    makes it active again. *)
+Theorem C02_failed_enum_inactive :
+  forall (cf : cfg) (pos : key -> N) (sz : key -> Z) (s : st) n complete,
+    c_bloom cf = true ->
+    complete = false \/ n < length (s_store s) ->
+    let s' := fst (step cf pos sz s (ORebuild n complete)) in
+    snd (step cf pos sz s (ORebuild n complete)) = (RErr, [QMARK]) /\
+    s_active s' = false /\
+    forall o, (forall n' c', o <> ORebuild n' c') -> s_active (fst (step cf pos sz s' o)) = false.
+Proof.
+  intros cf pos sz s n complete Hbl Hcut.
+  destruct (failed_enum_inactive cf pos sz s n complete Hbl (enum_ok_false_cases _ _ _ Hcut)) as [Ha Hr].
+  split; [exact Hr|]. split; [exact Ha|]. intros o Ho. now apply inactive_stays.
+Qed.
+Print Assumptions C02_failed_enum_inactive.
+
+(** * Concurrent part: every interleaving of the atomic steps, with evictions
+      at any time; both for the code as it is today and for the repaired code
+      (any [fl]) *)
+
+(** 2Q layer: in every reachable state the per-key locks exclude each other
+    (readers/writer), every thread that has performed its store call still knows
+    the truth about its key, and EVERY CACHED ENTRY AGREES WITH THE STORE unless a
+    writer holding that key's write lock is between its store call and its
+    cache update. *)
+Theorem C02_inv_cache_sound :
+  forall cf fl pos sz keys bn bc progs (ls : list label) s,
+    c_tq cf = true ->
+    lrun cf fl pos sz (cinit cf keys bn bc progs) ls = Some s ->
+    excl s /\
+    forall k e, lookup k (g_cache (g_sh s)) = Some e ->
+      agrees sz (g_store (g_sh s)) k e \/ writer_in_flight s k.
+Proof.
+  intros cf fl pos sz keys bn bc progs ls s Htq Hr.
+  pose proof (tq_reachable cf fl pos sz keys bn bc progs ls s Htq Hr) as HI.
+  split; [apply (tq_excl sz s HI) | apply (tq_cache sz s HI)].
+Qed.
+Print Assumptions C02_inv_cache_sound.
+
+(** Bloom layer: in every reachable state at most one thread is inside
+    build/Rebuild, and WHILE THE FILTER IS ACTIVE EVERY STORED KEY IS IN THE
+    FILTER or a Put of that key has not returned yet and will still add it to
+    the live filter.  (The enumeration is a point-in-time snapshot of the
+    store — the assumption documented at Rebuild — which is how [RQPre] is
+    modelled.) *)
+Theorem C02_inv_bloom_complete :
+  forall cf fl pos sz keys bn bc progs (ls : list label) s,
+    c_bloom cf = true ->
+    lrun cf fl pos sz (cinit cf keys bn bc progs) ls = Some s ->
+    (forall t1 t2, holds_mu (pcof s t1) = true -> holds_mu (pcof s t2) = true -> t1 = t2) /\
+    (g_active (g_sh s) = true ->
+     forall k, mem k (g_store (g_sh s)) = true ->
+       bsub (pos k) (g_filt (g_sh s)) = true \/ put_in_flight s k).
+Proof.
+  intros cf fl pos sz keys bn bc progs ls s Hbl Hr.
+  pose proof (bloom_reachable cf fl pos sz keys bn bc progs ls s Hbl Hr) as HI.
+  split; [apply (b_mu pos s HI)|].
+  intros Ha k Hm. destruct (b_active pos s HI Ha k Hm) as [Hf|[[]|Hp]]; [now left | now right].
+Qed.
+Print Assumptions C02_inv_bloom_complete.
+
+(** A completed Put is never reported missing.  In every reachable state of the
+    repaired model ([d_toctou = false]: hasCached reads the active flag and the
+    filter atomically), for a key that is stored and has no Put / writer still
+    in flight: the Bloom layer does not short-circuit a lookup (it forwards it),
+    and the 2Q layer either goes to the store or answers "found".  (The third
+    way to answer, the store itself, holds the key by assumption.) *)
+Theorem C02_put_never_missing :
+  forall cf fl pos sz keys bn bc progs (ls : list label) s t s' k,
+    d_toctou fl = false ->
+    lrun cf fl pos sz (cinit cf keys bn bc progs) ls = Some s ->
+    mem k (g_store (g_sh s)) = true ->
+    tstep cf fl pos sz s t = Some s' ->
+    (forall a, c_bloom cf = true -> pcof s t = BActive a k -> ~ put_in_flight s k ->
+               pcof s' t = enter_inner cf a k) /\
+    (forall rk, c_tq cf = true -> pcof s t = TQuery (SKRead rk) k -> ~ writer_in_flight s k ->
+                pcof s' t = TLock (SKRead rk) k \/
+                t_res (tget s' t) = found_res sz rk k :: t_res (tget s t)).
+Proof.
+  intros cf fl pos sz keys bn bc progs ls s t s' k Htoc Hr Hm Hstep. split.
+  - intros a Hbl Hpc Hnf.
+    apply (never_missing_bloom cf fl pos sz s t s' a k Htoc Hbl
+             (bloom_reachable cf fl pos sz keys bn bc progs ls s Hbl Hr) Hpc Hm Hnf Hstep).
+  - intros rk Htq Hpc Hnw.
+    apply (never_missing_cache cf fl pos sz s t s' rk k Htq
+             (tq_reachable cf fl pos sz keys bn bc progs ls s Htq Hr) Hpc Hm Hnw Hstep).
+Qed.
+Print Assumptions C02_put_never_missing.
+
+(** In the repaired model ([d_early = false]: activation waits for Puts that
+    have written the store but not yet the filter), whenever build/Rebuild
+    activates the filter, every stored key is in it — no key that readers could
+    already see becomes invisible. *)
+Theorem C02_activate_complete :
+  forall cf fl pos sz keys bn bc progs (ls : list label) s t s',
+    d_early fl = false -> c_bloom cf = true ->
+    lrun cf fl pos sz (cinit cf keys bn bc progs) ls = Some s ->
+    pcof s t = RActivate -> tstep cf fl pos sz s t = Some s' ->
+    g_active (g_sh s') = true /\
+    forall k, mem k (g_store (g_sh s')) = true -> bsub (pos k) (g_filt (g_sh s')) = true.
+Proof.
+  intros cf fl pos sz keys bn bc progs ls s t s' He Hbl Hr Hpc Hstep.
+  apply (activate_complete cf fl pos sz s t s' He Hbl
+           (bloom_reachable cf fl pos sz keys bn bc progs ls s Hbl Hr) Hpc Hstep).
+Qed.
+Print Assumptions C02_activate_complete.
+
+(** * The code as it is today violates the property (findings C02-1, C02-2) *)
+
+(** C02-2: with hasCached's two separate reads there is a run in which key 0 is
+    stored from the start, no thread ever writes or deletes anything, and Has(0)
+    answers false (a Rebuild deactivates and swaps between the two reads). *)
+Theorem C02_toctou_refuted :
+  exists ls s,
+    lrun cf_bloom (Build_flags true false) pos1 sz0
+      (cinit cf_bloom [0] 30 true [[ORead KHas 0]; [ORebuild 30 true]]) ls = Some s /\
+    mem 0 (g_store (g_sh s)) = true /\ t_res (tget s 1) = [RBool false].
+Proof. exists toctou_run. exact toctou_witness. Qed.
+Print Assumptions C02_toctou_refuted.
+
+(** C02-1: with activation not waiting for Puts in flight there is a run in which
+    Has(0) answers true and afterwards false while the only writer is a Put(0)
+    that has not returned (thread 1 has no answer yet): not linearizable. *)
+Theorem C02_early_activate_refuted :
+  exists ls s,
+    lrun cf_bloom (Build_flags false true) pos1 sz0
+      (cinit cf_bloom [] 30 true [[OPut 0 false]; [ORead KHas 0; ORead KHas 0]]) ls = Some s /\
+    t_res (tget s 2) = [RBool false; RBool true] /\ t_res (tget s 1) = [] /\
+    g_active (g_sh s) = true /\ mem 0 (g_store (g_sh s)) = true /\ bsub (pos1 0) (g_filt (g_sh s)) = false.
+Proof. exists early_run. exact early_witness. Qed.
+Print Assumptions C02_early_activate_refuted.
+
+(** Non-vacuity: the same schedules in the repaired model — the reader of the
+    first run is not fooled, the second schedule is not executable (activation
+    is not enabled while the Put is in its window). *)
+Example C02_toctou_fixed :
+  forall s,
+    lrun cf_bloom (Build_flags false false) pos1 sz0
+      (cinit cf_bloom [0] 30 true [[ORead KHas 0]; [ORebuild 30 true]]) toctou_run = Some s ->
+    t_res (tget s 1) <> [RBool false].
+Proof. exact toctou_fixed. Qed.
+
+Example C02_early_fixed :
+  lrun cf_bloom (Build_flags false false) pos1 sz0
+    (cinit cf_bloom [] 30 true [[OPut 0 false]; [ORead KHas 0; ORead KHas 0]]) early_run = None.
+Proof. exact early_fixed. Qed.
+
+(** Non-vacuity of the invariants' hypotheses: a reachable state with an active
+    filter, a cached entry and a stored key (2Q + Bloom, one Put then one Has). *)
+Example C02_reachable_example :
+  exists s,
+    lrun (Build_cfg true true) (Build_flags false false) pos1 sz0
+      (cinit (Build_cfg true true) [1] 30 true [[OPut 0 false; ORead KHas 0]])
+      (repeat (LThread 0) 7 ++ repeat (LThread 1) 9 ++ repeat (LThread 1) 2) = Some s /\
+    g_active (g_sh s) = true /\ mem 0 (g_store (g_sh s)) = true /\
+    lookup 0 (g_cache (g_sh s)) = Some (CSize 0) /\ t_res (tget s 1) = [RBool true; ROk].
+Proof. eexists. vm_compute. repeat split. Qed.
